@@ -25,7 +25,8 @@ def run_queries(items, label, rng, tier, model_ok, budget_quick=2500, budget_tho
     mismatches = []
     n = 0
     if model_ok:
-        idx = list(range(len(cases)))
+        # very large numbers are compared against the oracle only: reducing them inside Coq (Qred) is quadratic
+        idx = [i for i in range(len(cases)) if all(abs(x) < 10 ** 120 for x in cases[i][2])]
         budget = budget_quick if tier == "quick" else budget_thorough
         if len(idx) > budget:
             idx = sorted(rng.sample(idx, budget))
